@@ -50,6 +50,16 @@ def check(ctx):
     conns = lc.split_conns(events)
     lc.trace_conn(ctx, conns, "c13")
     ctx.sample({"from": "scenario", "events": [[e["p"], e["ev"], e.get("name"), e.get("kind"), e.get("wait")] for e in events if e["ev"] in ("scenario", "cmd_ret", "gate", "close")][:14]})
+    # a terminal that never reads: its writer stuck in Write with commands outstanding, queued and refused, then EOF / reset
+    st = os.path.join(ctx.scratch, "c13_stall.ndjson")
+    r = ctx.vh(["live-c13stall", st], timeout=400)
+    lc.crash_check(ctx, r.returncode, r.stderr, "live-c13stall")
+    sev = vlib.read_nd(st, quoted=False)
+    from checks.c01 import trace_validate
+    trace_validate(ctx, "Trace_Stall", st, sev, "stalled-writer-scenarios-validated-by-Trace_Stall", lambda inv, e: "%s variant=%s" % (inv, e.get("variant")))
+    ctx.cov["stall_runs"] = [{k: e.get(k) for k in ("variant", "stalled", "manager_ok", "all_returned", "hung")} for e in sev]
+    if not all(e.get("stalled") for e in sev):
+        ctx.cov["stall_note"] = "the writer could not be stalled in at least one variant (12000 kilobyte commands were absorbed): that variant is not judged"
     ctx.cov["rule"] = ("MC_Conn: every interleaving of reader (incl. each step of stop()), writer select branches, time-out goroutines, manager and "
                        "callers for the stated capacities, terminal closing at any point; invariant NoPanic, liveness Returns under fairness. "
                        "Live: the disconnect catalogue (9 scenarios, 5 of them held at hook-point gates in the orderings the as-found model's "
